@@ -40,13 +40,14 @@ _float = float
 class RecordManager:
     """Process records into the cache and notify listeners."""
 
-    __slots__ = ("zc", "cache", "listeners")
+    __slots__ = ("zc", "cache", "listeners", "_dispatching")
 
     def __init__(self, zeroconf: 'Zeroconf') -> None:
         """Init the record manager."""
         self.zc = zeroconf
         self.cache = zeroconf.cache
         self.listeners: Set[RecordUpdateListener] = set()
+        self._dispatching = 0
 
     def async_updates(self, now: _float, records: List[RecordUpdate]) -> None:
         """Used to notify listeners of new information that has updated
@@ -56,8 +57,12 @@ class RecordManager:
 
         This method will be run in the event loop.
         """
-        for listener in self.listeners.copy():
-            listener.async_update_records(self.zc, now, records)
+        self._dispatching += 1
+        try:
+            for listener in self.listeners.copy():
+                listener.async_update_records(self.zc, now, records)
+        finally:
+            self._dispatching -= 1
 
     def async_updates_complete(self, notify: bool) -> None:
         """Used to notify listeners of new information that has updated
@@ -67,8 +72,12 @@ class RecordManager:
 
         This method will be run in the event loop.
         """
-        for listener in self.listeners.copy():
-            listener.async_update_records_complete()
+        self._dispatching += 1
+        try:
+            for listener in self.listeners.copy():
+                listener.async_update_records_complete()
+        finally:
+            self._dispatching -= 1
         if notify:
             self.zc.async_notify_all()
 
@@ -175,12 +184,15 @@ class RecordManager:
                 " In the future this will fail"
             )
 
-        if question is not None:
+        if question is not None and not self._dispatching:
             # Records that have expired but have not been purged yet are not
             # handed to the new listener below. Left in the cache, they would be
             # refreshed in place by the next answer, which is not reported as a new
             # record, and the listener would never learn about them: purge them
             # first, as the periodic cleanup would within the next ten seconds.
+            # (Not while listeners are being called: a listener added from inside
+            # a callback must not change the cache under the update in progress
+            # or make the other listeners be called again.)
             now = current_time_millis()
             expired = self.cache.async_expire(now)
             if expired:
